@@ -3,13 +3,31 @@ from common import *  # H, RTPS_SHIM_FILES, ENV_INJECT, ENV_STUBS
 
 # ------------------------------------------------------------------------------- C08
 _d = "dds::with_key::datasample_cache::verif_harness_dscache"
+_p = "dds::with_key::datasample_cache::verif_harness_c08_plans"
+
+# Every c08_plan_* harness runs ONE concrete operation sequence ("plan") on the real DataSampleCache and
+# compares it after EVERY step with the reference model of DDS 1.4 2.2.2.5.1 in harness/c08_plans.rs:
+_MODEL = (" [model after every step: selection == {available, in scope, matching the condition}; per returned sample: "
+          "sample_state, instance_state (snapshot at the call), disposed_generation_count (snapshot at reception), "
+          "no_writers_generation_count 0, payload/key, view_state of the most recent sample of its instance "
+          "(never accessed since (re)birth => NEW; a sample of the current generation already accessed => NOT_NEW), "
+          "per-writer sequence-number order, no sample twice; take removes exactly the returned samples, read removes "
+          "nothing and flips NotRead->Read; after every arrival: nothing taken/evicted reappears, the new change is "
+          "available, KeepAll evicts nothing, KeepLast(depth): <= depth samples of the instance available and each of "
+          "them among the depth most recent changes of the instance]")
+_SYM = "Value/Dispose of EVERY arrival and every payload byte symbolic (all 2^n histories of the plan); kinds/order/keys/writers/SNs/max_samples/conditions concrete"
+
 PROP = {
     "title": "read/take: sample, view, instance state, generations, History depth",
     "design_ref": "DESIGN.md section 3, C08",
-    "inject": {"src/dds/with_key/datasample_cache.rs": ["dscache"]},
+    "inject": {"src/dds/with_key/datasample_cache.rs": ["dscache", "c08_plans"]},
     "shim_files": ["src/dds/with_key/datasample_cache.rs", "src/dds/with_key/datareader.rs"],
     "cap": {"quick": 4, "thorough": 4},
+    # a selection (Vec<(Timestamp, key)>) and a result (Vec<DataSample>) are heap objects of 200-2000 bytes; with CBMC's
+    # default limit (64) everything read back from them looks symbolic and a SECOND access on the cache runs out of memory
+    "cbmc_args": ["--max-field-sensitivity-array-size", "4096"],
     "harnesses": [
+        # ---------------------------------------------------------------- single steps (straight-line assertions)
         H("c08_single_value_take", _d,
           "KeepLast(1), one Value for a symbolic key in {0,1}: select(any)+take returns exactly it with "
           "NotRead/New/Alive, generation counts 0, writer/SN/payload intact; a second take returns nothing",
@@ -31,28 +49,104 @@ PROP = {
           "instance_state Alive on both (snapshot at the call), disposed_generation_count 0 then 1 iff the first "
           "was a Dispose, no_writers count 0, most recent sample New, both NotRead, both removed",
           "2 arrivals, key 0, one writer"),
-        # ---- not decided inside my time box (symbolic execution > 5-7 min on the loaded machine)
+        # ---------------------------------------------------------------- multi-step plans against the model, quick
+        H("c08_plan_3arr_read_read", _p,
+          "(a) KeepAll, one instance: A A A, read(any) [three samples, up to two generations, in ONE result], read(any) again "
+          "[all Read, most recent NotNew]; witness: value,dispose,value" + _MODEL, "3 arrivals, 2 accesses; " + _SYM),
+        H("c08_plan_3arr_take_arr_read", _p,
+          "(a) KeepAll: A A A, take(any) all three, one more arrival, read: NEW again iff that arrival was a rebirth, else NOT_NEW; "
+          "taken samples never come back", "4 arrivals, 2 accesses; " + _SYM),
+        H("c08_plan_read_arr_read", _p,
+          "(a)/(e) KeepAll: A A, read, A A, read(not_read) returns exactly the two new ones (newest NEW iff reborn since the read), "
+          "read(any) returns all four Read/NotNew; witness: two rebirths", "4 arrivals, 3 accesses; " + _SYM),
+        H("c08_plan_two_writers_crossed", _p,
+          "(b) KeepAll, two writers on one instance, arrival order W1:sn5 W2:sn1 W1:sn6 W2:sn2 (result order differs from arrival "
+          "order): read all, take all; per-writer SN order, generation counts by ARRIVAL order, most recent = last received",
+          "4 arrivals, 2 accesses; " + _SYM),
+        H("c08_plan_kl2_refill", _p,
+          "(c) KeepLast(2): A A, take both, A A A without taking, read [exactly the 2 newest], take",
+          "5 arrivals, 3 accesses; " + _SYM),
+        H("c08_plan_kl2_partial", _p,
+          "(c) KeepLast(2): A A, take(max_samples=1), A A A, read [the untaken old one evicted, the 2 newest remain], take",
+          "5 arrivals, 3 accesses; " + _SYM),
+        H("c08_plan_kl1_partial", _p, "(c) KeepLast(1): A A, take(max_samples=1), A A, read, take", "4 arrivals, 3 accesses; " + _SYM),
+        H("c08_plan_unset_refill", _p, "(c) no History in the QoS (= KeepLast(1)): A, take, A A, read [the newest], take",
+          "3 arrivals, 3 accesses; " + _SYM),
+        H("c08_plan_kl2_two_instances", _p,
+          "(d) KeepLast(2), keys 0 and 1: k0 k1 k0, take_instance(This 0), k0 k0 k0, read over both instances, "
+          "take_instance(Next 0) = key 1 [NotNew: viewed by the read], read_instance(This 0) [skips the stale index entries], "
+          "read_instance(Next 1) = nothing", "6 arrivals, 5 accesses, <= 4 live samples; " + _SYM),
+        H("c08_plan_not_read_after_partial", _p,
+          "(e) KeepAll: A A, read(max_samples=1), read(not_read) returns exactly the other one, read(not_read) nothing, read(any) both Read",
+          "2 arrivals, 4 accesses; " + _SYM),
+        # ---------------------------------------------------------------- GENUINE FINDING (fails on the unchanged tree)
+        H("c08_finding_view_state_backwards_take", _p,
+          "FINDING: value, dispose, value (KeepAll, one writer); read(any) [generation 1 accessed]; take(max_samples=1) returns only the "
+          "generation-0 sample; read(any): the most recent sample is reported NEW again although its generation was already "
+          "accessed and the instance was not reborn (mark_instances_viewed overwrites last_generation_accessed with the "
+          "OLDER generation of the last access)", "3 arrivals, 3 accesses, concrete kinds", expect="fail"),
+        # ---------------------------------------------------------------- thorough
+        H("c08_plan_4arr_read_read", _p, "(a) KeepAll: A A A A, read, read; witness: dispose,value,dispose,value = generations 0,1,1,2",
+          "4 arrivals, 2 accesses; " + _SYM, tier="thorough", timeout=2400),
+        H("c08_plan_3arr_read_take_read", _p,
+          "(a) KeepAll: A A A, read(max 2), take(not_read) [removes exactly the third], read [two Read ones], take",
+          "3 arrivals, 4 accesses; " + _SYM, tier="thorough", timeout=2400),
+        H("c08_plan_two_writers_take", _p, "(b) KeepAll: W1:V(1) W2:V(1) W1:D(2) W2:V(2), take: all four in one result",
+          "4 arrivals (concrete kinds), 1 access", tier="thorough", timeout=2400),
+        H("c08_plan_kl1_refill", _p, "(c) KeepLast(1): A, take, A A, read, take", "3 arrivals, 3 accesses; " + _SYM, tier="thorough", timeout=2400),
+        H("c08_plan_unset_partial", _p, "(c) default History: A A, take(max 1), A A, read, take", "4 arrivals, 3 accesses; " + _SYM,
+          tier="thorough", timeout=2400),
+        H("c08_plan_kl2_read_arr_notread", _p,
+          "(c) KeepLast(2): A A, read, A [evicts a READ sample], read(not_read), A, take(not_read) [only the unread one], read",
+          "4 arrivals, 4 accesses; " + _SYM, tier="thorough", timeout=2400),
+        H("c08_plan_kl3_refill", _p, "(c) KeepLast(3): A A A, take(max 2), A A A A, read [the 3 newest], take; witness: three rebirths",
+          "7 arrivals, 3 accesses; " + _SYM, tier="thorough", timeout=2400),
+        H("c08_plan_two_instances_read_read", _p,
+          "(d) KeepAll: k0 k1 k0 k1, read [two instances x two samples in one result], read_instance(Next 0), take all: both instances NotNew",
+          "4 arrivals, 3 accesses; " + _SYM, tier="thorough", timeout=2400),
+        H("c08_plan_3arr_read_take_symmax", _p, "KeepAll: A A A, read, take(max_samples SYMBOLIC in 0..=3)",
+          "3 arrivals, 2 accesses; " + _SYM + " except max_samples of the take", tier="thorough", timeout=2400),
+        H("c08_plan_kl2_take_symmax_refill", _p, "KeepLast(2): A A, take(max_samples SYMBOLIC in 0..=4), A A",
+          "4 arrivals, 1 access; " + _SYM + " except max_samples of the take", tier="thorough", timeout=2400),
+        H("c08_obs_over_eviction_after_take", _p,
+          "OBSERVATION (passes; the property text only bounds from above): KeepLast(2): A A, read(max 1), take(not_read) [takes the NEWER one], A: "
+          "the stale instance_samples entry of the taken sample makes the arrival evict the untaken older sample - 1 of 2 untaken "
+          "changes available although depth = 2 (cover witness)", "3 arrivals, 3 accesses; " + _SYM, tier="thorough", timeout=2400),
+        H("c08_finding_view_state_backwards_read", _p,
+          "FINDING (same defect, read only): value, dispose, value; read(any); read(max_samples=1); read(any): most recent sample NEW again",
+          "3 arrivals, 3 accesses, concrete kinds", tier="thorough", timeout=2400, expect="fail"),
+        H("c08_finding_view_state_backwards_next_sample_loop", _p,
+          "FINDING (same defect, the documented `while let Some(s) = read_next_sample()` loop, two writers): W1:V(sn5) W2:D(sn1) W2:V(sn2); "
+          "three read(max 1, not_read); read(any): most recent sample NEW again", "3 arrivals, 4 accesses, concrete kinds",
+          tier="thorough", timeout=2400, expect="fail"),
+        H("c08_finding_view_state_backwards_symsn", _d,
+          "FINDING (same defect, straight-line harness): as above with writer 1's sequence number symbolic in 1..20 (fails for > 2)",
+          "3 arrivals, 4 reads", tier="thorough", timeout=2400, expect="fail"),
         H("c08_single_sample_life_symkey", _d, "c08_single_sample_life with a symbolic key in {0,1}",
           "1 arrival", tier="thorough", timeout=2400),
         H("c08_not_read_after_read", _d,
           "read, second arrival, not_read selects exactly the unread sample; New iff reborn; read(any) returns both Read",
           "2 arrivals, key 0", tier="thorough", timeout=2400),
-        H("c08_next_sample_loop_view_state", _d,
-          "W1 value (SN s in 1..20), W2 dispose SN 1, W2 value SN 2 on one instance, KeepAll; three read_next_sample "
-          "(= read(1, not_read)), then read(any): the most recent sample must be NotNew (SUSPECTED to fail for s > 2, see report)",
-          "3 arrivals, 4 reads", tier="thorough", timeout=2400),
+        H("c08_two_instances", _d,
+          "default History, keys 0 and 1: Next/This selection, read_instance(1), not_read over all, take all: per-instance "
+          "instance_state / view_state / sample_state", "2 arrivals, 4 selections", tier="thorough", timeout=2400),
     ],
-    "bounds": {"CAP": "4 live map entries", "unwind": 6, "instances": "1 (key 0) except c08_single_value_take (key in {0,1})",
-               "operations": "concrete operation kinds per harness; symbolic: Value/Dispose of every arrival, payload"},
+    "bounds": {"CAP": "4 live entries per map/set (samples in the cache, index entries of an instance incl. stale ones, instances)",
+               "unwind": "6-8 (= arrival slots + 1)", "instances": "1 (key 0), 2 in the *_two_instances plans",
+               "writers": "1, 2 in the *_two_writers plans",
+               "operations": "19 concrete plans of 3-7 arrivals and 1-5 accesses (read/take/read_instance/take_instance This|Next, "
+                             "condition any|not_read, max_samples 1|2|all); per plan symbolic: Value/Dispose of every arrival, payload bytes"},
     "outside": [
-        "symbolic operation KINDS / interleavings, symbolic keys over >= 2 arrivals, two writers with symbolic sequence-number "
-        "order: the model-driven harnesses for these (run_plan / c08_plan_* in harness/dscache.rs, reference model of DDS 1.4 "
-        "2.2.2.5.1 included) exceed 8 GB or 7 min of symbolic execution already for two arrivals + one access",
-        "read_instance/take_instance, iterators (read_bare_by_keys/take_bare_by_keys), max_samples truncation: harnesses written "
-        "(c08_two_instances, c08_next_sample_loop_view_state) but not decided in the quick tier",
+        "symbolic operation KINDS / orders / keys / writers / sequence numbers and symbolic read conditions: one symbolic condition on a "
+        "3-sample cache exceeds 6 GB (the selection gets a symbolic length); symbolic max_samples only in the two *_symmax plans (thorough)",
+        "histories longer than 7 arrivals or with more than 4 live samples; more than 2 instances / 2 writers; KeepLast(depth > 3)",
+        "iterators (read_bare_by_keys / take_bare_by_keys), view/instance-state masks of a ReadCondition (only any / not_read are used)",
         "sample_rank / generation_rank / absolute_generation_rank (not named in the property text; by reading, RustDDS computes "
         "them over the whole result, not per instance)",
-        "NotAliveNoWriters transitions (never produced by RustDDS), DataReader glue above the cache",
+        "NotAliveNoWriters transitions (never produced by RustDDS), DataReader glue above the cache (truncate(max_samples) is emulated by slicing the selection)",
+        "view_state of samples other than the most recent one of an instance, and of the most recent one when only OLDER generations were "
+        "accessed since the rebirth (the two readings of 2.2.2.5.1.8 differ there; the model asserts only where they agree)",
+        "LOWER bounds on availability under KeepLast: evicting more than necessary is not flagged (see c08_obs_over_eviction_after_take)",
     ],
     "assumptions": [
         "std BTreeMap/BTreeSet/HashMap replaced by the array-backed shim under cfg(kani) (validated by SELFTEST; counterexamples replayed on std containers)",
@@ -61,9 +155,11 @@ PROP = {
         "Vec::push / Vec::with_capacity / VecDeque::with_capacity allocate a concrete capacity (16 / 16 / 8 elements); more elements are outside the bound",
         "receive timestamps concrete and strictly increasing (the cache documents that it needs unique timestamps)",
     ],
-    "trusted": ["/verif/shim/collections.rs (BTreeMap/BTreeSet/HashMap stand-in)", "verif_env::stub_vec_push / stub_vec_with_capacity"],
-    "explanation": "C08: DataSampleCache driven through the calls with_key::DataReader makes, against DDS 1.4 2.2.2.5.1.",
-    "technique": "Kani/CBMC bounded symbolic model checking of short DataSampleCache scenarios (concrete operation kinds, symbolic Value/Dispose and payload)",
-    "level_text": "SAT-solver verdict over the symbolic parameters of each listed scenario; the scenarios are a small concrete-kind subset of the quantifier (see outside).",
-    "level_note": "Trusted: Kani/CBMC/CaDiCaL, the container shim, the Vec/sort stand-ins listed under assumptions.",
+    "trusted": ["/verif/shim/collections.rs (BTreeMap/BTreeSet/HashMap stand-in)", "verif_env::stub_vec_push / stub_vec_with_capacity",
+                "the reference model of DDS 1.4 2.2.2.5.1 in /verif/harness/c08_plans.rs (about 150 lines)"],
+    "explanation": "C08: DataSampleCache driven through the calls with_key::DataReader makes (add_sample; select_keys_for_access / "
+                   "select_instance_keys_for_access + truncate + read_by_keys / take_by_keys), compared step by step with a reference model of DDS 1.4 2.2.2.5.1.",
+    "technique": "Kani/CBMC bounded symbolic model checking of multi-step DataSampleCache histories (concrete operation plans; symbolic Value/Dispose of every arrival and payload)",
+    "level_text": "SAT-solver verdict over all Value/Dispose assignments and payloads of each listed plan; the plans are a concrete-kind subset of the quantifier (see outside).",
+    "level_note": "Trusted: Kani/CBMC/CaDiCaL, the container shim, the Vec/sort stand-ins listed under assumptions, the reference model.",
 }
